@@ -67,24 +67,6 @@ theorem pipeOKIn_parts {x b : String} {c : Callable} (h : pipeOKIn x b c = true)
     | inl h => exact absurd hd h
     | inr h => exact h
 
-theorem first_of_nodup (c : Callable) (h : (callIds c).Nodup) :
-    ∀ k ∈ c.calls, c.calls.find? (·.id == k.id) = some k := by
-  unfold callIds at h
-  generalize c.calls = l at h
-  induction l with
-  | nil => intro k hk; cases hk
-  | cons a t ih =>
-    intro k hk
-    simp only [List.map_cons, List.nodup_cons] at h
-    cases hk with
-    | head => simp
-    | tail _ hk =>
-      have : (a.id == k.id) = false := by
-        have : a.id ≠ k.id := fun e => h.1 (e ▸ List.mem_map.mpr ⟨k, hk, rfl⟩)
-        simpa using this
-      simp only [List.find?_cons, this]
-      exact ih h.2 k hk
-
 theorem rename_input_graph (x a b : String) (ti : TypeInfo) (p : Program)
     (hok : RenInOK x a b ti p = true) :
     deepGraph (ti.renameInput x a b) (renameInput x a b p)
@@ -105,8 +87,8 @@ theorem rename_input_graph (x a b : String) (ti : TypeInfo) (p : Program)
     | inl h => exact h
     | inr h => rw [h] at hk; cases hk
   have H : SimHyp ti (ti.renameInput x a b) p (renameInput x a b p) id (renameInputIn x a b) (GIn x a b)
-      (SIn x a b) (fun _ _ v => v) id (fun c => pipeOKIn x b c = true) (IIn x b) (fun _ _ => True) := by
-    refine { hfind1 := ?_, hfind0 := ?_, hF := ?_, hcalls := ?_, hG := ?_, hfirst := ?_, hO0 := ?_,
+      (SIn x a b) (fun _ _ v => v) id (fun c => pipeOKIn x b c = true) (IIn x b) (fun _ _ => True) (fun _ => True) := by
+    refine { hfind1 := ?_, hfind0 := ?_, hrel := fun _ _ _ _ => trivial, hF := ?_, hcalls := ?_, hGid := ?_, hGdec := ?_, hfirst := ?_, hO0 := ?_,
              hOs := ?_, o0 := ?_, o0s := ?_, o1 := ?_, o2 := ?_, c5 := ?_, c6 := ?_, c7 := ?_ }
     · intro n d hd
       refine ⟨?_, hall d (find_mem p n d hd)⟩
@@ -114,7 +96,7 @@ theorem rename_input_graph (x a b : String) (ti : TypeInfo) (p : Program)
       unfold Program.find? at hd ⊢
       simp only [id]
       rw [find_map_name _ (renameInputIn_name x a b), hd]; rfl
-    · intro n hd
+    · intro n _ hd
       rw [hp']
       unfold Program.find? at hd ⊢
       simp only [id]
@@ -137,8 +119,13 @@ theorem rename_input_graph (x a b : String) (ti : TypeInfo) (p : Program)
     · intro pipe k
       unfold GIn
       split
-      · exact ⟨rfl, rfl⟩
-      · unfold renameCallParam; split <;> exact ⟨rfl, rfl⟩
+      · rfl
+      · unfold renameCallParam; split <;> rfl
+    · intro pipe _ k _
+      unfold GIn
+      split
+      · rfl
+      · unfold renameCallParam; split <;> rfl
     · intro pipe hg
       exact first_of_nodup pipe (pipeOKIn_parts hg).2.1
     · intros; rfl
@@ -160,7 +147,7 @@ theorem rename_input_graph (x a b : String) (ti : TypeInfo) (p : Program)
       have hkm := (call_mem pipe id k hk).1
       have hdname := find_name p _ d hd
       have hOsib : Osib p (fun _ _ v => v) pipe sib = sib := by
-        funext i; simp only [Osib]; split <;> (try split) <;> rfl
+        funext i; rfl
       rw [hOsib]
       unfold callIns
       rw [renameInputIn_name, resolveBinds_ti _ _ hmo]
@@ -225,7 +212,7 @@ theorem rename_input_graph (x a b : String) (ti : TypeInfo) (p : Program)
       intro d ins sib hg hp hi _
       have hparts := pipeOKIn_parts hg
       have hOsib : Osib p (fun _ _ v => v) d sib = sib := by
-        funext i; simp only [Osib]; split <;> (try split) <;> rfl
+        funext i; rfl
       rw [hOsib]
       unfold pipeOuts
       rw [renameInputIn_name, resolveBinds_ti _ _ hmo]
@@ -254,7 +241,7 @@ theorem rename_input_graph (x a b : String) (ti : TypeInfo) (p : Program)
       intro d ins sib hg hp hi _
       have hparts := pipeOKIn_parts hg
       have hOsib : Osib p (fun _ _ v => v) d sib = sib := by
-        funext i; simp only [Osib]; split <;> (try split) <;> rfl
+        funext i; rfl
       rw [hOsib, List.map_id]
       unfold pipeRetained
       by_cases hn : d.name = x
